@@ -88,7 +88,9 @@ func (e *c06ZB) Unwrap() error { return c06ZCause["zb"] }
 // ---------- descriptions ----------
 
 // Kind: ps pm vs vm mm  (foreign, mutable)   ew ej en (errdef: Wrap / Join / New)
-//       np nq (typed nil *c06PS / *c06PM)    za zb (zero-size pointers)
+//
+//	np nq (typed nil *c06PS / *c06PM)    za zb (zero-size pointers)
+//
 // Causes: indices into Nodes, -1 = nil.  ps/vs/za/zb use at most one entry.
 type c06Node struct {
 	Kind   string
